@@ -279,14 +279,21 @@ Definition next_line (c : config) (e : env) (s : state) : list effect * nl_out *
   end.
 
 (* the two callers: interp.go execActions returns the error; vm.go getline (default case)
-   turns io.EOF into 0 and EVERY other error into -1 without returning it *)
+   turns io.EOF into 0, returns the sandbox denial (err == errNoFileReads) as the run-time
+   error, and turns every other error into -1 without returning it *)
+Definition getline_plain_err (x : err) : step_out :=
+  match x with
+  | ENoFileReads => Stop ENoFileReads
+  | _ => Continue RNeg1
+  end.
+
 Definition next_line_via (c : config) (e : env) (s : state) (v : via) : list effect * step_out * state :=
   let '(effs, o, s') := next_line c e s in
   match o, v with
   | NLRecord, _ => (effs, Continue RNonNeg, s')
   | NLEOF, _ => (effs, Continue RNonNeg, s')
   | NLErr x, ViaMain => (effs, Stop x, s')
-  | NLErr x, ViaGetline => (effs, Continue RNeg1, s')
+  | NLErr x, ViaGetline => (effs, getline_plain_err x, s')
   | NLFuel, _ => (effs, Fuel, s')
   end.
 
